@@ -173,7 +173,7 @@ def parseOpts (s : Bytes) : List (Bytes × Bytes) :=
 def pack (o : List (Bytes × Bytes)) : List Bytes := o.map fun p => p.1 ++ 61 :: p.2
 
 /-- the option loop of HandleOptions keeping the state reached when an option is rejected
-(checkOptions ignores the error and reads the features anyway) -/
+(before repair 4394ad6 checkOptions ignored the error and read the features anyway) -/
 def runP (env : Env) : Cfg → List Bytes → Cfg × Bool
   | c, [] => (c, true)
   | c, a :: r => match step env c a with
@@ -189,19 +189,24 @@ def probe (env : Env) (args : List Bytes) : Cfg :=
 structure CmdEnv where
   iNested : Nat          -- index of EnableNestedStruct
   templateName : Bytes   -- "template"
+  probeErrReturned : Bool -- checkOptions returns the error of its scratch HandleOptions (regenerated from args.go)
 
 /-- args.checkOptions: with nested structs on and no option NAMED `template`, `template=slim` is appended
-(an option named `template` is left as it is: the loop assigns to a copy) -/
-def checkOptions (env : Env) (ce : CmdEnv) (o : List (Bytes × Bytes)) : List (Bytes × Bytes) :=
-  if feat (probe env (pack o)) ce.iNested then
-    if o.any (fun p => p.1 == ce.templateName) then o else o ++ [(ce.templateName, env.slimName)]
-  else o
+(an option named `template` is left as it is: the loop assigns to a copy).  `none` = the error of the scratch run
+is returned (Targets fails, nothing is generated). -/
+def checkOptions (env : Env) (ce : CmdEnv) (o : List (Bytes × Bytes)) : Option (List (Bytes × Bytes)) :=
+  if ce.probeErrReturned && (handle env (pack o)).isNone then none
+  else if feat (probe env (pack o)) ce.iNested then
+    if o.any (fun p => p.1 == ce.templateName) then some o else some (o ++ [(ce.templateName, env.slimName)])
+  else some o
 
 /-- what the go backend's HandleOptions ends with for `-g go:<s>`.  The probe run of checkOptions shares the
 process-wide naming-style objects with the backend's run: the latter starts from their flags. -/
 def cmdline (env : Env) (ce : CmdEnv) (s : Bytes) : Option Cfg :=
   let o := parseOpts s
   let flags := (probe env (pack o)).styleFlags
-  handleFrom env { init env with styleFlags := flags } (pack (checkOptions env ce o))
+  match checkOptions env ce o with
+  | none => none
+  | some o' => handleFrom env { init env with styleFlags := flags } (pack o')
 
 end Options
